@@ -21,7 +21,7 @@
    - [legal_history]: every operation is strictly legal and no two accepted
      headers share a hash (collision freedom of the header hash). *)
 From Coq Require Import Permutation.
-From VF.C18 Require Import Model ProofsA ProofsB ProofsC ProofsD ProofsE ProofsF ProofsG ProofsH ProofsI ProofsJ ProofsK Bridge.
+From VF.C18 Require Import Model ProofsA ProofsB ProofsC ProofsD ProofsE ProofsF ProofsG ProofsH ProofsI ProofsJ ProofsK ProofsL Bridge.
 From VF.gen Require Import C18Locks.
 Local Open Scope N_scope.
 
@@ -231,6 +231,55 @@ Theorem C18_reset_reinitialises_every_cycle_field :
 Proof. exact reset_reinitialises_cycle_fields. Qed.
 Print Assumptions C18_reset_reinitialises_every_cycle_field.
 
+(* 10. The error KIND of a delivery and the fetch loop's busy/idle bookkeeping
+   (fetchParts idles the sender after every delivery except a "stale" one).
+   A packet from a peer with nothing pending is answered "no fetches pending"
+   (kind 1), accepts nothing and leaves the queue untouched; "stale" (kind 4) is
+   only ever said to a peer that had a request, and accepts nothing. *)
+Theorem C18_unpending_delivery_is_no_fetches_pending :
+  forall derive p bs s,
+    (pend_get p (pend s) = None -> deliver derive p bs s = (s, (0, 1))) /\
+    (snd (snd (deliver derive p bs s)) = 4 ->
+       pend_get p (pend s) <> None /\ fst (snd (deliver derive p bs s)) = 0).
+Proof. exact (fun derive p bs s => conj (deliver_unpending derive p bs s) (deliver_stale_had_request derive p bs s)). Qed.
+Print Assumptions C18_unpending_delivery_is_no_fetches_pending.
+
+(* Hence in the fetch loop (queue state + set of busy peers): a packet from a
+   peer with nothing pending idles it, so a peer is never more than ONE packet
+   away from being usable again - whatever its packets contain; *)
+Theorem C18_peer_idle_after_its_next_packet :
+  forall derive p bs1 bs2 f,
+    (pend_get p (pend (fst f)) = None -> ~ In p (snd (fst (f_deliver derive p bs1 f)))) /\
+    ~ In p (snd (fst (f_deliver derive p bs2 (fst (f_deliver derive p bs1 f))))).
+Proof.
+  exact (fun derive p bs1 bs2 f =>
+           conj (packet_idles_unpending_peer derive p bs1 f) (second_packet_idles derive p bs1 bs2 f)).
+Qed.
+Print Assumptions C18_peer_idle_after_its_next_packet.
+
+(* and the only way a peer gets "stuck" (busy for the loop, nothing pending in
+   the queue, invisible to expiry) is its own stale delivery: handing out work,
+   expiring requests and other peers' packets never do it. *)
+Theorem C18_only_a_stale_delivery_sticks_its_sender :
+  forall derive empty_root p q bs count limit ps f,
+    (stuck q (fst (f_deliver derive p bs f)) ->
+       stuck q f \/ (q = p /\ snd (f_deliver derive p bs f) = 4)) /\
+    (stuck q (f_reserve empty_root p count limit f) -> stuck q f) /\
+    (stuck q (f_expire ps f) -> stuck q f).
+Proof.
+  exact (fun derive empty_root p q bs count limit ps f =>
+           conj (f_deliver_stuck derive p q bs f)
+                (conj (f_reserve_stuck empty_root p q count limit f) (f_expire_stuck derive q ps f))).
+Qed.
+Print Assumptions C18_only_a_stale_delivery_sticks_its_sender.
+
+(* Bridge: in the working tree queue.deliver returns errNoFetchesPending for a
+   peer without a pending request, and fetchParts calls setIdle(peer, accepted)
+   after a delivery unless the error is errStaleDelivery (and only then). *)
+Theorem C18_idle_glue_in_the_code : idle_glue_holds = true.
+Proof. exact idle_glue. Qed.
+Print Assumptions C18_idle_glue_in_the_code.
+
 (* The property, all clauses, for legal histories. *)
 Definition C18_full : Prop :=
   forall (derive : list N -> N) (empty_root : N), derive [] = empty_root ->
@@ -372,3 +421,17 @@ Example C18_nonvacuous_second_cycle_below_released :
               [Schedule [h6; h7] 6; Reserve 1 3 3; Deliver 1 [[1]; [2]]; Results])) = [6; 7].
 Proof. vm_compute. auto. Qed.
 Print Assumptions C18_nonvacuous_second_cycle_below_released.
+
+(* the stuck state exists and is repaired by the sender's next packet: peer 2
+   holds [h6;h7], a duplicate of an older reply ([[9]]: wrong first body) is stale,
+   drops the request and leaves peer 2 busy with nothing pending; its real answer
+   then finds nothing pending and idles it *)
+Example C18_nonvacuous_stale_then_unpending :
+  let f0 := f_reserve 0 2 3 3 (fst (schedule_loop [h5; h6; h7] 5 (init 3 5)), []) in
+  snd f0 = [2] /\
+  (let r1 := f_deliver ex_derive 2 [[9]] f0 in
+   snd r1 = 4 /\ stuck 2 (fst r1) /\
+   (let r2 := f_deliver ex_derive 2 [[1]; [2]] (fst r1) in
+    snd r2 = 1 /\ snd (fst r2) = [])).
+Proof. vm_compute. repeat split; auto. Qed.
+Print Assumptions C18_nonvacuous_stale_then_unpending.
